@@ -262,7 +262,15 @@ class Run:
                     continue
                 mid = self.starts[t.id][1]
                 cpu, bw = speeds[mid]
-                node = nodes[t.graph_id]
+                try:
+                    node = nodes.get(t.graph_id)
+                except TypeError:
+                    node = None
+                if node is None:
+                    # C14: exactly one task per graph node, carrying that node's identifier
+                    self.fail.append(('C14', f"task {t.id}: its graph_id {t.graph_id!r} ({type(t.graph_id).__name__}) is not a node of the workflow "
+                                             f"(nodes {sorted(nodes)})"))
+                    continue
                 if t.flops != node['comp'] or t.task_data != node.get('task_data', 0):
                     self.fail.append(('C14', f"task {t.id}: demands ({t.flops},{t.task_data}) but node says ({node['comp']},{node.get('task_data', 0)})"))
                 rt = max(math.floor(node['comp'] / cpu), math.floor(node.get('task_data', 0) / bw))
